@@ -90,7 +90,18 @@ def run(tier):
             data_dev.setdefault(clause, []).append({k: metas[i][k] for k in ('lang', 'words', 'text') if k in metas[i]})
     if data_dev or n_train[1]:
         print('NOTE training-data creator (outside the listed properties) deviates from Formats!TrainFails: %s %s' % ({c: len(v) for c, v in data_dev.items()}, n_train[1][:2]))
-    cov = {'training_data_creator_against_Formats': {'samples': n_train[0], 'deviations': {c: len(v) for c, v in data_dev.items()},
+    # the files of the training-data creator against TrainData.tla (outside the listed properties: reported, never a violation)
+    from .. import traindata
+    from ..common import run_forked, Hang
+    try:
+        td = run_forked(traindata.conformance, 1800 if tier == 'quick' else 10800, tier, random.Random(seed() + 80))
+    except (Hang, Machinery) as e:
+        td = {'not_run': str(e)[:300], 'vector_deviations': {}, 'trace_deviations': {}, 'states': 0}
+        print('NOTE training-data files against TrainData.tla: not run (%s)' % str(e)[:200])
+    if td['vector_deviations'] or td['trace_deviations']:
+        print('NOTE training-data creator (outside the listed properties) deviates from TrainData.tla: %s %s' % (td['vector_deviations'], td['trace_deviations']))
+    cov = {'training_data_files_against_TrainData_tla': td,
+           'training_data_creator_against_Formats': {'samples': n_train[0], 'deviations': {c: len(v) for c, v in data_dev.items()},
                                                       'first_deviation': {c: v[0] for c, v in data_dev.items()}, 'raised': n_train[1][:5]},
            'tlc_runs': [{'cfg': 'MCFormats', 'distinct': mr.distinct, 'generated': mr.generated, 'wall_s': round(mr.wall, 1)}],
            'states': stats.states + mr.distinct, 'transitions': stats.transitions + mr.generated, 'binding_demonstration': demo, 'traces_validated_against_impl': len(events),
